@@ -260,6 +260,29 @@ def oracle_probes(ctx):
                     compare_with_oracle(ctx, "brier_score_for_ensemble differs from the weighted mean of (i/m - y)^2 - fair correction (exact oracle; "
                                         "weights multiply the corrected score)", ens_oracle_array(c), weights, impl[1], desc_ens(c))
     ctx.count("oracle_probes", 32)
+    # ensembles stored as integers / float32 with thresholds that are not representable in that dtype: the comparison must be
+    # made on the values, not after casting the threshold to the ensemble's dtype
+    o2 = xr.DataArray([2.0, 0.7, 3.0], dims=["t"], coords={"t": [0, 1, 2]})
+    f32 = np.float32(0.7)
+    ens = {
+        "int64": xr.DataArray(np.array([[1, 2, 3], [0, 1, 1], [2, 2, 3]], dtype=np.int64), dims=["t", "ens"], coords={"t": [0, 1, 2]}),
+        "int32": xr.DataArray(np.array([[1, 2, 3], [0, 1, 1], [2, 2, 3]], dtype=np.int32), dims=["t", "ens"], coords={"t": [0, 1, 2]}),
+        "float32": xr.DataArray(np.array([[f32, 1.5, 2.5], [f32, f32, 0.25], [0.5, 2.5, f32]], dtype=np.float32), dims=["t", "ens"], coords={"t": [0, 1, 2]}),
+    }
+    for dt, fx in ens.items():
+        for ts in ([0.7], [0.5, 1.5, 2.5], [0.7, 2.0]):
+            for opn in OPS:
+                for fair in (True, False):
+                    c = dict(fcst=fx, obs=o2, w=None, ts=ts, scalar=False, opn=opn, fair=fair, rd=None, pd="all", tdim="threshold", ens="ens")
+                    impl = call_ens(P, c)
+                    ctx.case(("dtype_probe", dt, str(ts), opn, fair))
+                    d = dict(desc_ens(c), fcst_dtype=dt)
+                    if impl[0] != "ok":
+                        ctx.violation("brier_score_for_ensemble raises on a valid " + dt + " ensemble", d, "values", impl[1])
+                        continue
+                    compare_with_oracle(ctx, "brier_score_for_ensemble on a " + dt + " ensemble differs from the exact oracle (members and thresholds "
+                                        "compared by value)", ens_oracle_array(dict(c, fcst=fx.astype(float))), None, impl[1], d)
+    ctx.count("dtype_probes", 72)
 
 
 def full_ens(ctx, use_model=True):
@@ -363,6 +386,28 @@ def brier_boundaries(ctx):
             ctx.violation("brier_score binary check of the observations", {"fcst": [0.25, 0.5, 0.75], "obs": [0.0, v, 1.0]},
                           "err:ValueError" if must_raise else "a value", str(got[1])[:80])
     ctx.count("brier_boundary_probes", 33)
+    # Dataset inputs: every variable is checked, and each variable scores as its DataArray
+    fa = xr.DataArray([0.25, 0.5, 1.0], dims=["x"])
+    fb = xr.DataArray([0.0, 0.75, 0.5], dims=["x"])
+    oa = xr.DataArray([0.0, 1.0, 1.0], dims=["x"])
+    ob = xr.DataArray([1.0, 0.0, NAN], dims=["x"])
+    good = core.call_impl(P.brier_score, xr.Dataset({"a": fa, "b": fb, "c": fa}), xr.Dataset({"a": oa, "b": ob, "c": ob}))
+    ctx.case(("brier_dataset", "valid"))
+    if good[0] != "ok" or not all(np.allclose(float(good[1][v]), float(P.brier_score(fx, ox))) for v, fx, ox in (("a", fa, oa), ("b", fb, ob), ("c", fa, ob))):
+        ctx.violation("brier_score on Dataset inputs must score every variable as its DataArray", {"variables": ["a", "b", "c"]}, "per-variable scores", str(good[1])[:150])
+    bad_o = xr.DataArray([0.0, 0.5, 1.0], dims=["x"])
+    bad_f = xr.DataArray([0.25, 1.5, 1.0], dims=["x"])
+    neg_f = xr.DataArray([0.25, -1e-17, 1.0], dims=["x"])
+    for pos in ("a", "b", "c"):
+        for kind, fds, ods in (("obs", {"a": fa, "b": fb, "c": fa}, {"a": oa, "b": oa, "c": oa, pos: bad_o}),
+                               ("fcst", {"a": fa, "b": fb, "c": fa, pos: bad_f}, {"a": oa, "b": oa, "c": oa}),
+                               ("fcst_neg", {"a": fa, "b": fb, "c": fa, pos: neg_f}, {"a": oa, "b": oa, "c": oa})):
+            got = core.call_impl(P.brier_score, xr.Dataset(fds), xr.Dataset(ods))
+            ctx.case(("brier_dataset", kind, pos))
+            if got != ("err", "err:ValueError"):
+                ctx.violation("brier_score(check_args=True) on Dataset inputs must validate every variable (invalid " + kind + " value in variable '" + pos + "' of a, b, c)",
+                              {"invalid_variable": pos, "kind": kind, "obs_value": 0.5, "fcst_value": 1.5 if kind == "fcst" else -1e-17}, "err:ValueError", str(got[1])[:100])
+    ctx.count("brier_dataset_probes", 10)
 
 
 def full_brier(ctx, use_model=True):
